@@ -13,6 +13,12 @@ for s in STACK + ITER + STATIC:
 for s in POOL + COLL:
     HARNESS[s] = "subj_pool"
 
+# minimised past failures: these seeds run first in every tier (the history that exposed the defect named)
+CORPUS = {
+    "coll-small-identity-growing": [3003],   # D31: default capacity below one small-list chunk
+    "coll-small-identity-fixed": [3003],
+}
+
 FLAGS = {"subj_stack": ["-fno-access-control"], "subj_pool": ["-fno-access-control", "-I/repo/src"]}
 
 
@@ -35,6 +41,9 @@ def run(ctx, tag, subjects, cfgs, nseeds, nops, fail_positions=(), classify=None
             for s in subjects:
                 if HARNESS[s] != h:
                     continue
+                for sd in CORPUS.get(s, []):
+                    if not (ctx.seed * 1000 <= sd < ctx.seed * 1000 + nseeds):
+                        jobs.append(dict(subject=s, cfg=c, seed=sd, nops=nops))
                 for i in range(nseeds):
                     jobs.append(dict(subject=s, cfg=c, seed=ctx.seed * 1000 + i, nops=nops))
                 for k in fail_positions:
